@@ -81,9 +81,15 @@ func parserRequestURL(c *Client, req *Request) error {
 	for key, val := range *req.path {
 		params[key] = val
 	}
-	params.VisitAll(func(key, val string) {
-		uri = strings.ReplaceAll(uri, ":"+key, val)
-	})
+	// the parameters are replaced in one pass over the URL: a value that contains ":name" of another
+	// parameter is not substituted again
+	if len(params) > 0 {
+		oldnew := make([]string, 0, 2*len(params))
+		params.VisitAll(func(key, val string) {
+			oldnew = append(oldnew, ":"+key, val)
+		})
+		uri = strings.NewReplacer(oldnew...).Replace(uri)
+	}
 
 	// Set the URI in the raw request.
 	req.RawRequest.SetRequestURI(uri)
